@@ -68,8 +68,123 @@ Theorem C30_canonical_reparse_refuted_empty_host :
 Proof. exact canonical_reparse_refuted_empty_host. Qed.
 Print Assumptions C30_canonical_reparse_refuted_empty_host.
 
+(* ---- (1)/(3) the port of an RFC-shaped URI ---- *)
+
+(* scheme "://" [userinfo "@"] reg-name ":" P rest, with P the text between the colon and the end of
+   the authority: if the URI is accepted (any non-CONNECT method, any configuration) then P is a
+   non-empty string of decimal digits, its value lies in 1..65535 and it is the port.  Read
+   contrapositively: every non-numeric, empty or out-of-range port text is rejected. *)
+Theorem C30_shaped_port_is_written : forall ipq c m s ui h P rest u,
+  is_connect m = false -> scheme_text s ->
+  s_id (scheme_of s) <> uri_PROTO_NONE -> s_id (scheme_of s) <> uri_PROTO_URN ->
+  userinfo_at ui ->
+  forallb auth_char h = true -> no_at h = true -> no_colon h = true -> starts_ch 91 h = false ->
+  forallb auth_char P = true -> no_at P = true -> no_colon P = true ->
+  rest_ok rest ->
+  parse c ipq m (s ++ colon :: slash :: slash :: (ui ++ h ++ colon :: P) ++ rest) = Some u ->
+  P <> [] /\ forallb dec_digit P = true /\ 1 <= dec_value P 0 <= 65535 /\ u_port u = Some (dec_value P 0).
+Proof. exact shaped_port_is_written. Qed.
+Print Assumptions C30_shaped_port_is_written.
+
+(* the same after a bracketed literal: scheme "://" [userinfo "@"] "[" inner "]" ":" P rest *)
+Theorem C30_shaped_literal_port_is_written : forall ipq c m s ui inner P rest u,
+  is_connect m = false -> scheme_text s ->
+  s_id (scheme_of s) <> uri_PROTO_NONE -> s_id (scheme_of s) <> uri_PROTO_URN ->
+  userinfo_at ui ->
+  forallb auth_char inner = true -> no_at inner = true -> no_rbracket inner = true ->
+  forallb auth_char P = true -> no_at P = true ->
+  rest_ok rest ->
+  parse c ipq m (s ++ colon :: slash :: slash :: (ui ++ 91 :: inner ++ 93 :: colon :: P) ++ rest) = Some u ->
+  P <> [] /\ forallb dec_digit P = true /\ 1 <= dec_value P 0 <= 65535 /\ u_port u = Some (dec_value P 0).
+Proof. exact shaped_literal_port_is_written. Qed.
+Print Assumptions C30_shaped_literal_port_is_written.
+
+(* without a port: the scheme's default port (and a host must be present) *)
+Theorem C30_shaped_default_port : forall ipq c m s ui h rest u,
+  is_connect m = false -> scheme_text s ->
+  s_id (scheme_of s) <> uri_PROTO_NONE -> s_id (scheme_of s) <> uri_PROTO_URN ->
+  userinfo_at ui ->
+  forallb auth_char h = true -> no_at h = true -> no_colon h = true -> starts_ch 91 h = false ->
+  rest_ok rest ->
+  parse c ipq m (s ++ colon :: slash :: slash :: (ui ++ h) ++ rest) = Some u ->
+  h <> [] /\ u_port u = default_port (scheme_of s) /\ u_scheme u = scheme_of s.
+Proof. exact shaped_default_port. Qed.
+Print Assumptions C30_shaped_default_port.
+
+(* ---- (2) canonical form: what holds ---- *)
+
+(* Re-parsing absolute() of a URI value whose host is a settled reg-name (non-empty, no '@' ':' or
+   leading '[', unchanged by lower-casing / trailing-dot removal, not cut) or a dotted quad that
+   Ip::Address recognises as itself, and whose path consists of PathChars only (so: no query, no
+   fragment, nothing to encode) yields the same scheme, host, port and path.
+   Missing for the full statement: paths with '?' '#' or bytes that Encode rewrites (refuted above),
+   hosts outside this class (refuted above), bracketed IPv6 literals and CONNECT targets (covered
+   by the correspondence run and the oracle only), and the link "every parse result of a well-formed
+   URI is such a value" is proved for the port and scheme (theorems above) but not for host and path. *)
+Theorem C30_canonical_reparse_partial : forall ipq c m u port,
+  is_connect m = false ->
+  scheme_text (s_img (u_scheme u)) -> scheme_of (s_img (u_scheme u)) = u_scheme u ->
+  s_id (u_scheme u) <> uri_PROTO_NONE -> s_id (u_scheme u) <> uri_PROTO_URN ->
+  u_port u = Some port -> 1 <= port <= 65535 ->
+  settled_host c (u_host u) -> set_host ipq (u_host u) = (u_host u, u_num u) ->
+  clean_path (u_path u) ->
+  lenN (absolute u) <= uri_MAX_URL - 1 ->
+  exists login',
+    parse c ipq m (absolute u) =
+      Some {| u_scheme := u_scheme u; u_login := login'; u_host := u_host u; u_num := u_num u;
+              u_port := Some port; u_path := u_path u |}.
+Proof. exact reparse_canonical. Qed.
+Print Assumptions C30_canonical_reparse_partial.
+
+(* and the canonical form is then a fixed point: canonical (parse (canonical u)) = canonical u *)
+Theorem C30_canonical_form_fixed_point_partial : forall ipq c m u port,
+  is_connect m = false ->
+  (s_id (u_scheme u) =? uri_PROTO_FTP) || (s_id (u_scheme u) =? uri_PROTO_UNKNOWN) = false ->
+  scheme_text (s_img (u_scheme u)) -> scheme_of (s_img (u_scheme u)) = u_scheme u ->
+  s_id (u_scheme u) <> uri_PROTO_NONE -> s_id (u_scheme u) <> uri_PROTO_URN ->
+  u_port u = Some port -> 1 <= port <= 65535 ->
+  settled_host c (u_host u) -> set_host ipq (u_host u) = (u_host u, u_num u) ->
+  clean_path (u_path u) ->
+  lenN (absolute u) <= uri_MAX_URL - 1 ->
+  exists u', parse c ipq m (absolute u) = Some u' /\ absolute u' = absolute u.
+Proof. exact canonical_fixed_point. Qed.
+Print Assumptions C30_canonical_form_fixed_point_partial.
+
 (* ---- hypotheses are satisfiable ---- *)
 Example C30_ex_accepted :
   exists u, parse cfg_default no_ip m_get w_query = Some u /\ s_id (u_scheme u) <> uri_PROTO_URN /\
             u_num u = false /\ u_host u <> [] /\ lenN (u_host u) < uri_SQUIDHOSTNAMELEN - 1.
 Proof. eexists. split; [vm_compute; reflexivity|]. repeat split; vm_compute; discriminate || reflexivity. Qed.
+
+(* "http://Example.COM:8080/x": shaped with s = "http", h = "Example.COM", P = "8080", rest = "/x";
+   its parse result satisfies every hypothesis of the canonical re-parse theorem *)
+Definition C30_ex_s : bytes := [104;116;116;112].
+Definition C30_ex_h : bytes := [69;120;97;109;112;108;101;46;67;79;77].
+Definition C30_ex_P : bytes := [56;48;56;48].
+Definition C30_ex_rest : bytes := [47;120].
+Definition C30_ex_raw : bytes := C30_ex_s ++ colon :: slash :: slash :: ([] ++ C30_ex_h ++ colon :: C30_ex_P) ++ C30_ex_rest.
+Definition C30_ex_u : uri :=
+  match parse cfg_default no_ip m_get C30_ex_raw with Some u => u | None => star_uri end.
+Ltac c30_decide := vm_compute; first [reflexivity | discriminate | (let H := fresh in intro H; discriminate H) | (left; reflexivity)].
+Example C30_ex_parse : parse cfg_default no_ip m_get C30_ex_raw = Some C30_ex_u /\ u_port C30_ex_u = Some 8080.
+Proof. split; vm_compute; reflexivity. Qed.
+Example C30_ex_shaped_hyps :
+  scheme_text C30_ex_s /\ s_id (scheme_of C30_ex_s) <> uri_PROTO_NONE /\ s_id (scheme_of C30_ex_s) <> uri_PROTO_URN /\
+  userinfo_at [] /\
+  forallb auth_char C30_ex_h = true /\ no_at C30_ex_h = true /\ no_colon C30_ex_h = true /\ starts_ch 91 C30_ex_h = false /\
+  forallb auth_char C30_ex_P = true /\ no_at C30_ex_P = true /\ no_colon C30_ex_P = true /\ rest_ok C30_ex_rest.
+Proof.
+  unfold scheme_text. repeat match goal with |- _ /\ _ => split end; c30_decide.
+Qed.
+Example C30_ex_reparse_hyps :
+  is_connect m_get = false /\
+  scheme_text (s_img (u_scheme C30_ex_u)) /\ scheme_of (s_img (u_scheme C30_ex_u)) = u_scheme C30_ex_u /\
+  s_id (u_scheme C30_ex_u) <> uri_PROTO_NONE /\ s_id (u_scheme C30_ex_u) <> uri_PROTO_URN /\
+  settled_host cfg_default (u_host C30_ex_u) /\ set_host no_ip (u_host C30_ex_u) = (u_host C30_ex_u, u_num C30_ex_u) /\
+  clean_path (u_path C30_ex_u) /\ lenN (absolute C30_ex_u) <= uri_MAX_URL - 1 /\
+  (s_id (u_scheme C30_ex_u) =? uri_PROTO_FTP) || (s_id (u_scheme C30_ex_u) =? uri_PROTO_UNKNOWN) = false.
+Proof.
+  unfold scheme_text, settled_host, clean_path.
+  repeat match goal with |- _ /\ _ => split end; try c30_decide.
+  all: intros H; vm_compute in H; discriminate H.
+Qed.
